@@ -202,6 +202,12 @@ public:
 			if (_ref.lower()) {
 				return;
 			}
+			/* last reference: finish the elements left on the queue */
+			uint8_t buf[sizeof(T)];
+			T *t = static_cast<T *>(static_cast<void *>(buf));
+			while (this->pop(t, sizeof(T))) {
+				t->~T();
+			}
 			delete this;
 		}
 	};
@@ -228,9 +234,7 @@ public:
 		ref();
 	}
 	~pipe()
-	{
-		while (pop());
-	}
+	{ }
 	const reference<instance> &ref()
 	{
 		if (!_d.instance()) {
